@@ -72,7 +72,7 @@ var profC06 = Profile{
 
 func init() {
 	Register(&Check{ID: "C06", Level: "exploration",
-		Rule: "one case = one generated workflow with mixed CoresPerTask (1..max) and 1..6 slots under one schedule; the invariant 'sum of cores over tasks between command start and exit <= maxConcurrentTasks' is evaluated after EVERY simulator step (exact, not a lower bound). Some cases pre-place outputs so that skipped tasks interleave. Round 6: a second, smaller workflow with three one-core tasks counted against its own bound; FileSplitter feeding tasks that keep every slot busy. Round 7: background helpers that hold the output pipe count with their task; late outputs; custom log file. distinct = event-log hash; non-trivial = >=2 tasks executed and >=1 non-default choice",
+		Rule: "one case = one generated workflow with mixed CoresPerTask (1..max) and 1..6 slots under one schedule; the invariant 'sum of cores over tasks between command start and exit <= maxConcurrentTasks' is evaluated after EVERY simulator step (exact, not a lower bound). Some cases pre-place outputs so that skipped tasks interleave. Round 6: a second, smaller workflow with three one-core tasks counted against its own bound; FileSplitter feeding tasks that keep every slot busy. Round 7: background helpers that hold the output pipe count with their task; late outputs; custom log file. Round 8: processes with CoresPerTask = 0; joined in-ports. distinct = event-log hash; non-trivial = >=2 tasks executed and >=1 non-default choice",
 		Run: func(c *Case) Verdict {
 			var w *WF
 			switch c.Tape.Choose(simrt.StGen, 6, 0) {
